@@ -32,6 +32,13 @@ def execute(check, plan):
     return runner_est.run_plan(plan)
 
 
+def worker_init(check):
+    """Called once in every process that executes plans, before the first plan."""
+    if check == "C18":
+        from . import fresh, runner_est
+        fresh.start(runner_est.single_fit)
+
+
 def warm(check):
     """Import everything a worker needs before forking."""
     from . import runner, oracles, session, seams, binding, gen  # noqa
@@ -80,6 +87,15 @@ def samples(check, seed, tier):
         except Exception as e:  # pragma: no cover
             out.append(dict(run=run, error=repr(e)))
             continue
+        if plan.get("level") == "est":
+            out.append(dict(run=run, level="estimator history",
+                            datasets=[[len(d["X"]), len(d["X"][0]), d["kind"]] for d in plan["datasets"]],
+                            ops=[_short_est_op(o) for o in plan["ops"]]))
+            continue
+        if plan.get("level") == "matrix":
+            out.append(dict(run=run, level=plan["level"], cell=plan.get("cell"),
+                            draws=plan.get("draws")))
+            continue
         d = plan["data"]
         out.append(dict(run=run, family={k: plan["family"][k] for k in
                                          ("solver", "datafit", "penalty", "variant")
@@ -97,3 +113,22 @@ def _short_op(o):
     if "budgets" in s and len(s["budgets"]) > 12:
         s["budgets"] = s["budgets"][:12] + ["... %d budgets" % len(o["budgets"])]
     return s
+
+
+def _short_est_op(o):
+    s = dict(o)
+    if "args" in s:
+        a = dict(s["args"])
+        for k in ("weights",):
+            if isinstance(a.get(k), list) and len(a[k]) > 6:
+                a[k] = a[k][:6] + ["..."]
+        if "family" in a:
+            a["family"] = {k: a["family"][k] for k in ("solver", "datafit", "penalty")}
+        s["args"] = a
+    return s
+
+
+CHECK_TIERS = {
+    "C18": {"quick": dict(phases=[("twin", 0.5), ("compiled", 0.5)], run_cap=60),
+            "thorough": dict(phases=[("twin", 0.5), ("compiled", 0.5)], run_cap=120)},
+}
